@@ -1,6 +1,7 @@
 package main
 
 import (
+	"verifharness/internal/sysh"
 	"fmt"
 	"sort"
 	"strings"
@@ -195,5 +196,53 @@ func c07(c *ctx) {
 			granted += b01(ok[i])
 		}
 		c.t.Case("seid/"+s.name, granted > 0, "%s", sb.String())
+	}
+	c07system(c)
+}
+
+// c07system: UP-chosen and CP-chosen TEIDs side by side on a running agent. A session whose F-TEID the control plane chose
+// with the SAME number as a UP-chosen one (another N3 address) comes and goes: the UP-chosen TEID stays in use exactly
+// as long as the session it was chosen for lives.
+func c07system(c *ctx) {
+	r := c.rng
+	w, err := newWorld(c, sysh.Opts{ReadTimeout: 600})
+	if err != nil {
+		panic(err)
+	}
+	defer w.close()
+	w.cfgLine()
+	if !w.start() {
+		return
+	}
+	w.assoc(0)
+	w.assoc(1)
+	for i := 0; i < c.pick(25, 400); i++ {
+		pdrs, fars, qers := w.genSession(2) // CHOOSE F-TEID
+		w.nextCP++
+		a, oa := w.est(0, w.nodes[0], w.nextCP, pdrs, fars, qers, "c07-choose")
+		w.stats("c07")
+		if a == nil {
+			continue
+		}
+		var chosen uint32
+		for _, cr := range oa.Created {
+			if cr[1].(string) == "t" {
+				chosen = cr[2].(uint32)
+			}
+		}
+		// another session (often of another association) whose control plane picked the same number, under another address
+		p2, f2, q2 := w.genSession(0)
+		p2[0].Teid = u32p3(0, chosen, n3IP+8+uint32(r.Intn(4)))
+		w.nextCP++
+		other := r.Intn(2)
+		b, _ := w.est(other, w.nodes[other], w.nextCP, p2, f2, q2, "c07-cp-chosen-same-number")
+		if b != nil {
+			w.del(other, b.up, "c07")
+		}
+		w.stats("c07") // the UP-chosen TEID is still in use: its session lives
+		if r.Intn(3) > 0 {
+			w.del(0, a.up, "c07")
+			w.stats("c07")
+		}
 	}
 }
